@@ -142,6 +142,23 @@ pub struct DiffCase {
 
 pub struct BddDiff;
 
+/// an apply table that remembers nothing: the reference for "a cache never changes a result"
+#[derive(Default)]
+pub struct NoIteTable;
+
+impl<'a, T: rsdd::repr::DDNNFPtr<'a>> rsdd::builder::cache::IteTable<'a, T> for NoIteTable {
+    fn hash(&self, _ite: &rsdd::builder::cache::Ite<T>) -> u64 {
+        0
+    }
+    fn insert(&mut self, _ite: rsdd::builder::cache::Ite<T>, _res: T, _hash: u64) {}
+    fn get(&self, ite: rsdd::builder::cache::Ite<T>, _hash: u64) -> Option<T> {
+        match ite {
+            rsdd::builder::cache::Ite::IteConst(f) => Some(f),
+            _ => None,
+        }
+    }
+}
+
 pub fn run_diff(case: &DiffCase, st: &mut Stats) -> CaseResult {
     let n0 = case.n0 as usize;
     let order = |keys: &Vec<u16>| {
@@ -153,6 +170,8 @@ pub fn run_diff(case: &DiffCase, st: &mut Stats) -> CaseResult {
     rsdd::verif_hooks::set_lru_ite_capacity(case.lru_exp.map(|e| (e % 5) as usize));
     let l = RobddBuilder::<LruIteTable<BddPtr>>::new(order(&case.order_keys));
     rsdd::verif_hooks::set_lru_ite_capacity(None);
+    let z = RobddBuilder::<NoIteTable>::new(order(&case.order_keys));
+    let mut rz = BddRun::new(&z, n0);
     rsdd::verif_hooks::set_unique_table_capacity(None);
     let ow0 = rsdd::verif_hooks::lru_overwrites();
     let mut ra = BddRun::new(&a, n0);
@@ -160,8 +179,25 @@ pub fn run_diff(case: &DiffCase, st: &mut Stats) -> CaseResult {
     for (i, op) in case.ops.iter().enumerate() {
         let sa = ra.step(op);
         let sl = rl.step(op);
+        let sz = rz.step(op);
         match (sa, sl) {
             (Some(x), Some(y)) => {
+                // neither cache may change a result: the builder whose apply table remembers nothing is the reference
+                if let Some(w) = sz {
+                    let pz = rz.pool[w.idx].0;
+                    for (which, p) in [("cache-everything", ra.pool[x.idx].0), ("lossy", rl.pool[y.idx].0)] {
+                        ensure!(
+                            bdd_tt(p) == bdd_tt(pz) && bdd_iso(p, pz),
+                            format!("C16/cache-changes-a-result:{}", x.kind),
+                            "op #{} {:?}: the builder with the {} apply table returned a diagram denoting {:?}, a builder that caches nothing {:?}",
+                            i,
+                            op,
+                            which,
+                            bdd_tt(p),
+                            bdd_tt(pz)
+                        );
+                    }
+                }
                 let (pa, ta) = ra.pool[x.idx];
                 let (pl, tl) = rl.pool[y.idx];
                 ensure!(ta == tl, "C16/harness", "oracle tables diverged");
@@ -221,7 +257,7 @@ pub fn run_diff(case: &DiffCase, st: &mut Stats) -> CaseResult {
 impl SubCheckT for BddDiff {
     type Case = DiffCase;
     const NAME: &'static str = "bdd_differential";
-    const RULE: &'static str = "the same <=50-op BDD history on RobddBuilder<AllIteTable> and RobddBuilder<LruIteTable> with 1..16 slots (hook) or the default size, same random order: every pair of results denotes the same function and is structurally isomorphic (simultaneous walk), and the pointer-equality relation among all results is the same in both builders. Non-trivial: at least one overwrite happened in the lossy ITE cache (hook counter)";
+    const RULE: &'static str = "the same <=50-op BDD history on RobddBuilder<AllIteTable>, RobddBuilder<LruIteTable> with 1..16 slots (hook) or the default size, and a builder whose apply table (a harness type implementing the public IteTable trait) remembers nothing, same random order: the two caching builders return diagrams isomorphic to the cache-free one; every pair of results denotes the same function and is structurally isomorphic (simultaneous walk), and the pointer-equality relation among all results is the same in both builders. Non-trivial: at least one overwrite happened in the lossy ITE cache (hook counter)";
     fn cases(tier: Tier) -> u32 {
         tier.pick(6000, 80_000)
     }
